@@ -217,7 +217,71 @@ CANCEL = re.compile(r"rustybgpd::event::PeerContext::cancel_gr_timer")
 FOLLOW = re.compile(r"rustybgpd::gr::GrState::process|rustybgpd::table_manager::TableManager::(drop_families|drop_stale_families|drop_llgr_stale_families)")
 
 
+def check_timer_tasks(prog, r):
+    """One-shot driven timer tasks (restart timer, per-family LLGR timers, RTC EOR timer): the expiry handler runs when
+    the timeout elapses *and* when the one-shot is fired (force_down / StopBgp purge the routes that way); it does not
+    run when the sender is simply dropped (cancel).  All tasks must agree on this three-way reading."""
+    n = 0
+    for k in crate_fns(prog, "rustybgpd"):
+        ix = prog.ix[k]
+        if ix["kind"] not in ("coroutine", "closure") or "::tests::" in ix["name"]:
+            continue
+        names = [c["f"].get("name", "") for c in ix["calls"]]
+        hs = [x for x in names if re.search(r"(gr_restart|llgr|rtc_eor)_timer_expired", x)]
+        if not hs or not any("tokio::time::timeout" in x or "Timeout" in x for x in names):
+            continue
+        fv = view(prog, k)
+        n += 1
+        r.analysed(ix["name"])
+        brs = branches(fv)
+        outer = [br for br in brs.values() if br.expr[0] == "discr" and br.expr[1] == ("var", "result") and br.adt and br.adt.endswith("result::Result")]
+        inner = [br for br in brs.values() if br.expr[0] == "discr" and br.adt and br.adt.endswith("result::Result") and show(br.expr, 60).startswith("discr((result as Ok)")]
+        hcalls = [b for b, t in fv.calls(re.compile(r".*(gr_restart|llgr|rtc_eor)_timer_expired.*"))]
+        tag = re.sub(r"::\{closure#\d+\}", "", ix["name"]).split("::")[-1] + ":" + re.sub(r".*::", "", hs[0]).split("_timer")[0]
+        if not hcalls:
+            continue
+        if not outer:
+            coarse = [br for br in brs.values() if br.expr[0] == "call" and re.search(r"Result::<T, E>::(is_err|is_ok)$", br.expr[1])]
+            if coarse:
+                r.fail(ix["name"], "timer-task-ignores-fire:" + tag, "the timer task only asks whether the timeout elapsed (is_err/is_ok) and never looks at the one-shot's own result: firing the one-shot "
+                       "(force_down, StopBgp) is treated like dropping it, so the stale routes it was meant to purge stay with no timer armed", fv.loc(hcalls[0]))
+            else:
+                r.unanalysable("%s: the result of the timeout is not matched" % ix["name"], fv.loc())
+            continue
+        def edges(brl, lab):
+            out = set()
+            for br in brl:
+                for v, tgt in br.cases + [("else", br.otherwise)]:
+                    if br.label(prog, v) == lab:
+                        out.add((br.bi, tgt))
+            return out
+        elapsed = edges(outer, "Err")
+        fired = edges(inner, "Ok")
+        # `let run = match .. { .. => true, .. => false }; if run { handler }`: the handler runs exactly on the paths that
+        # assign `true`; without such a flag, on the paths that reach the handler call itself
+        targets = list(hcalls)
+        from ..cfg import guards_of as _go
+        for h in hcalls:
+            for br, labels in _go(fv, h, brs):
+                if br.ty == "bool" and labels == {"true"} and br.expr[0] in ("var", "tmp"):
+                    lv = [l for l, nm_ in fv.local_name.items() if br.expr[0] == "var" and nm_ == br.expr[1]] or ([br.expr[1]] if br.expr[0] == "tmp" else [])
+                    tb = [bi for l in lv for bi, si, s_ in fv.defs().get(l, []) if bi in fv.live and si != "t" and s_["rv"]["r"] == "use" and (s_["rv"]["o"].get("k") or {}).get("v") == 1]
+                    if tb:
+                        targets = tb
+        on_fire = any(h in fv.reach(fv.entry, (), elapsed) for h in targets)
+        on_cancel = any(h in fv.reach(fv.entry, (), elapsed | fired) for h in targets) if inner else on_fire
+        if on_fire and not on_cancel:
+            r.ok("%s: handler runs on timeout and on an explicit fire, not on cancel" % tag)
+        elif not on_fire:
+            r.fail(ix["name"], "timer-task-ignores-fire:" + tag, "the expiry handler runs only when the timeout elapses: firing the one-shot (force_down, StopBgp) is treated like a cancel, "
+                   "so the stale routes it was meant to purge stay with no timer armed", fv.loc(hcalls[0]))
+        else:
+            r.fail(ix["name"], "timer-task-runs-on-cancel:" + tag, "the expiry handler also runs when the one-shot sender is dropped: cancelling the timer (peer reconnected) purges the routes", fv.loc(hcalls[0]))
+    r.floor("one-shot timer tasks", n, 3)
+
+
 def check_cancel(prog, r):
+    check_timer_tasks(prog, r)
     ck = prog.one(r"rustybgpd::event::PeerContext::cancel_gr_timer")
     n = 0
     for c in sorted(prog.callers(ck)):
